@@ -278,7 +278,7 @@ def r_compute_domains(ck: Checker) -> None:
 
 RULES = [
     Rule("C20.nonstatic", P + ("C03",), r_nonstatic),
-    Rule("C20.accept", P, r_accept),
+    Rule("C20.accept", P + ("C12", "C13"), r_accept),
     Rule("C20.TEMPLATE.next", P + ("C12", "C13"), r_next_template),
     Rule("C20.create-domain", P, r_create_domain),
     Rule("C20.compute-domains", P, r_compute_domains),
